@@ -116,6 +116,14 @@ theorem dataSmooth_linear (sm : Nat → Option (Smoother K)) (nE : Nat) (A B : A
     | none => simp only [applySm]; exact ih A B
     | some s => simp only [applySm]; rw [smoother_linear]; exact ih _ _
 
+/-- T1' (homogeneous, no threshold).  `dataSmooth(c·A) = c·dataSmooth(A)` for EVERY scalar `c`, however small:
+    there is no magnitude below which a result may be left unsmoothed. -/
+theorem dataSmooth_homogeneous (sm : Nat → Option (Smoother K)) (nE : Nat) (A : Arr K) (c : K) :
+    dataSmooth sm nE (fun x => c * A x) = fun x => c * dataSmooth sm nE A x := by
+  have h := dataSmooth_linear sm nE A (fun _ => 0) c 0
+  simp only [mul_zero, add_zero, zero_mul] at h
+  exact h
+
 /-- T2 lifted: with positive kernels `dataSmooth` maps a constant array to the same constant at every position
     inside the array. -/
 theorem dataSmooth_const {F : Type} [Field F] [LinearOrder F] [IsStrictOrderedRing F]
